@@ -1526,6 +1526,27 @@ func runC14(c *run.Ctx, s *kit.Summary) {
 				os.Remove(p)
 			}
 		}
+		// big compact files: 5 KiB … 200 KiB
+		for i := 0; i < c.N(10, 150); i++ {
+			n := []int{150, 300, 600, 1200, 2500, 4000}[i%6] + r.Pick(100)
+			hc := genBigHTTPCase(r, work, n)
+			runBig(s, &hc)
+			if n <= 700 { // the model on the smaller ones (eager read)
+				writeFiles(&hc)
+				tgts, err := safeReadAll(vegeta.NewHTTPTargeter(strings.NewReader(hc.Src), hc.DefaultBody, mkDefaults(hc.Defaults)))
+				line := "err"
+				if err == nil {
+					line = "ok " + strconv.Itoa(len(tgts))
+					for k := range tgts {
+						line += " ; " + showView(snapshot(&tgts[k]))
+					}
+				}
+				ra.Add(httpOp(&hc, "c14.http.readall", -1), line)
+				for p := range hc.Files {
+					os.Remove(p)
+				}
+			}
+		}
 		st.Diff(c.Driver, s)
 		ra.Diff(c.Driver, s)
 		sel.Diff(c.Driver, s)
@@ -1686,6 +1707,9 @@ func runC14(c *run.Ctx, s *kit.Summary) {
 		}
 		st.Diff(c.Driver, s)
 		ra.Diff(c.Driver, s)
+		for i := 0; i < c.N(4, 60); i++ {
+			runBigJSON(s, r, []int{800, 1500, 2500, 4000}[i%4]+r.Pick(100))
+		}
 		selJ.Diff(c.Driver, s)
 		diffLenient("c14.jsonenc", encOps, encImpl, c, s, "")
 		// image decoder: "unmodelled" is skipped unless the line came from the encoder ("!" prefix);
@@ -1945,6 +1969,150 @@ func tail(s string, n int) string {
 		return s[len(s)-n:]
 	}
 	return s
+}
+
+// genBigHTTPCase: a compact targets file of n targets — one-line targets directly after one
+// another (no blank line), lines of varying length so that buffer boundaries (4096, 65536) fall
+// at every position of a line, now and then header lines (+ the blank line they need), a body
+// file or a comment.
+func genBigHTTPCase(r *kit.Rng, work string, n int) httpCase {
+	hc := httpCase{Work: work, Files: map[string][]byte{}, Legal: true}
+	hc.Defaults = []dflt{{"X-Dflt", []string{"dv"}, 1 + r.Pick(3)}}
+	if r.Chance(0.5) {
+		hc.DefaultBody = []byte("default body")
+	}
+	bp := filepath.Join(work, "big_body.bin")
+	hc.Files[bp] = []byte("big body payload")
+	var sb strings.Builder
+	for i := 0; i < n; i++ {
+		t := specTarget{Method: r.PickStr([]string{"GET", "POST", "DELETE", "PUT", "HEAD", "OPTIONS"}),
+			URL: "http://h" + strconv.Itoa(r.Pick(100)) + "/" + strconv.Itoa(i) + "/" + strings.Repeat("p", r.Pick(40))}
+		if r.Chance(0.03) {
+			sb.WriteString("# c" + strconv.Itoa(i) + "\n")
+		}
+		sb.WriteString(t.Method + " " + t.URL + "\n")
+		switch r.Pick(20) {
+		case 0, 1:
+			for j := 0; j <= r.Pick(2); j++ {
+				h := hdrLine{r.PickStr([]string{"X-Dflt", "X-Own", "k"}), "v" + strconv.Itoa(r.Pick(1000))}
+				t.Headers = append(t.Headers, h)
+				sb.WriteString(h.Key + ": " + h.Val + "\n")
+			}
+			sb.WriteString("\n")
+		case 2:
+			t.BodyFile, t.Body, t.HasBody = bp, hc.Files[bp], true
+			sb.WriteString("@" + bp + "\n")
+		}
+		hc.Targets = append(hc.Targets, t)
+	}
+	hc.Src = sb.String()
+	return hc
+}
+
+// runBig: a big file read lazily (every call) and eagerly (ReadAllTargets): exactly the described
+// targets in order, then exhaustion. (No re-inspection after every call here: quadratic.)
+func runBig(s *kit.Summary, hc *httpCase) {
+	writeFiles(hc)
+	defer func() {
+		for p := range hc.Files {
+			os.Remove(p)
+		}
+	}()
+	s.Count(fmt.Sprintf("http:big_file<=%dKiB", 1+len(hc.Src)/1024/25*25+24))
+	s.Case("big:"+strconv.Itoa(len(hc.Src))+":"+strconv.Itoa(len(hc.Targets)), true)
+	fail := func(mode, obs string) {
+		s.Violate(kit.Violation{Kind: "http_parse_mismatch", What: "a big compact http targets file does not decode (" + mode + ") to the targets it describes",
+			Input: hc, Expected: fmt.Sprintf("%d targets then ErrNoTargets", len(hc.Targets)), Observed: obs,
+			Key: map[string]interface{}{"comment_between_bare_request_lines": false, "bytes": len(hc.Src)}})
+	}
+	tr := vegeta.NewHTTPTargeter(strings.NewReader(hc.Src), hc.DefaultBody, mkDefaults(hc.Defaults))
+	var got []*vegeta.Target
+	for i := 0; i <= len(hc.Targets)+1; i++ {
+		t := &vegeta.Target{}
+		err := safeCall(tr, t)
+		if i < len(hc.Targets) {
+			if err != nil {
+				fail("lazily", fmt.Sprintf("call %d: %v", i, err))
+				return
+			}
+			got = append(got, t)
+		} else if !errors.Is(err, vegeta.ErrNoTargets) {
+			fail("lazily", fmt.Sprintf("call %d after the last target: %v", i, err))
+			return
+		}
+	}
+	for i, t := range hc.Targets {
+		if exp := expectedView(hc, t); !eqView(exp, snapshot(got[i])) {
+			fail("lazily", fmt.Sprintf("target %d: expected %s, got %s", i, showViewText(exp), showViewText(snapshot(got[i]))))
+			return
+		}
+	}
+	tgts, err := safeReadAll(vegeta.NewHTTPTargeter(strings.NewReader(hc.Src), hc.DefaultBody, mkDefaults(hc.Defaults)))
+	if err != nil || len(tgts) != len(hc.Targets) {
+		fail("eagerly", fmt.Sprintf("%d targets, err %v", len(tgts), err))
+		return
+	}
+	for i, t := range hc.Targets {
+		if exp := expectedView(hc, t); !eqView(exp, snapshot(&tgts[i])) {
+			fail("eagerly", fmt.Sprintf("target %d: expected %s, got %s", i, showViewText(exp), showViewText(snapshot(&tgts[i]))))
+			return
+		}
+	}
+}
+
+// runBigJSON: a JSON targets file of many small lines (well above 64 KiB in total), lazily and eagerly
+func runBigJSON(s *kit.Summary, r *kit.Rng, n int) {
+	jc := jsonCase{Legal: true, Defaults: map[string][]string{"X-Dflt": {"dv"}}, SpareCap: map[string]int{"X-Dflt": r.Pick(3)}}
+	var buf bytes.Buffer
+	enc := vegeta.NewJSONTargetEncoder(&buf)
+	for i := 0; i < n; i++ {
+		t := vegeta.Target{Method: r.PickStr([]string{"GET", "POST", "PUT"}), URL: "http://h/" + strconv.Itoa(i) + "/" + strings.Repeat("q", r.Pick(50))}
+		if r.Chance(0.1) {
+			t.Header = http.Header{r.PickStr([]string{"X-Dflt", "X-Own"}): {"v" + strconv.Itoa(i)}}
+		}
+		if r.Chance(0.05) {
+			t.Body = []byte("b" + strconv.Itoa(i))
+		}
+		if err := enc.Encode(&t); err != nil {
+			panic(err)
+		}
+		jc.Targets = append(jc.Targets, ownView(&t))
+	}
+	jc.Src = buf.String()
+	s.Count(fmt.Sprintf("json:big_file<=%dKiB", 1+len(jc.Src)/1024/25*25+24))
+	s.Case("bigj:"+strconv.Itoa(len(jc.Src)), true)
+	check := func(mode string, get func(i int) (*vegeta.Target, error)) bool {
+		for i := 0; i <= n; i++ {
+			t, err := get(i)
+			if i == n {
+				if !errors.Is(err, vegeta.ErrNoTargets) {
+					s.Violate(kit.Violation{Kind: "json_parse_mismatch", What: "big JSON file (" + mode + "): no exhaustion after the last target", Input: map[string]int{"targets": n, "bytes": len(jc.Src)}, Observed: fmt.Sprint(err)})
+					return false
+				}
+				continue
+			}
+			if err != nil || !eqView(expectedJSON(&jc, jc.Targets[i]), snapshot(t)) {
+				s.Violate(kit.Violation{Kind: "json_parse_mismatch", What: "big JSON file (" + mode + ") does not decode to the targets it describes", Input: &jc,
+					Expected: showViewText(expectedJSON(&jc, jc.Targets[i])), Observed: fmt.Sprintf("target %d: err %v", i, err)})
+				return false
+			}
+		}
+		return true
+	}
+	tr := vegeta.NewJSONTargeter(strings.NewReader(jc.Src), nil, mkJSONDefaults(jc.Defaults, jc.SpareCap))
+	if !check("lazily", func(i int) (*vegeta.Target, error) { t := &vegeta.Target{}; return t, safeCall(tr, t) }) {
+		return
+	}
+	tgts, err := safeReadAll(vegeta.NewJSONTargeter(strings.NewReader(jc.Src), nil, mkJSONDefaults(jc.Defaults, jc.SpareCap)))
+	check("eagerly", func(i int) (*vegeta.Target, error) {
+		if err != nil {
+			return nil, err
+		}
+		if i >= len(tgts) {
+			return nil, vegeta.ErrNoTargets
+		}
+		return &tgts[i], nil
+	})
 }
 
 // safeReadAll: ReadAllTargets with a panic turned into an error value (a panic in the real code
